@@ -47,7 +47,16 @@ def _harness(tier, seed):
     try:
         for it in range(reps):
             # ---- instances
-            if it % 5 == 0:
+            if it % 15 == 5:
+                # a bin side near the admissible maximum 10^12 (the other side and the items stay small: the constructor
+                # cuts every item into squares and scans q up to half the smaller side)
+                W, H = 10 ** 12 - rng.randint(0, 999), rng.choice([999, 1000, 1001])
+                try:
+                    inst = Instance(f"w{it}", W, H, [[rng.randint(H // 2, H), rng.randint(H // 2, H), rng.choice([1, 2, 11])]
+                                                       for _ in range(rng.randint(1, 3))])
+                except ValueError:
+                    inst = rand_instance(rng)
+            elif it % 5 == 0:
                 W, H = rng.choice([1, 9, 10, 99, 100, 32767, 10 ** 6]), rng.choice([1, 10, 127, 128, 1000])
                 items = []
                 for _ in range(rng.randint(1, 4)):
@@ -99,10 +108,14 @@ def _harness(tier, seed):
             except Exception as ex:
                 viol.append(("packing/raises", {"rows": np.array(y).tolist()}, repr(ex)))
         # ---- game plans
-        for name in ("circ4", "gal4", "con6", "circ8", "nl10"):
-            ti = TInstance.from_resource(name)
+        def _gen_ttp(n):
+            m = np.array([[0 if a == b else 1 + abs(a - b) for b in range(n)] for a in range(n)], dtype=np.int64)
+            return TInstance(f"gen{n}", m, [f"T{k + 1}" for k in range(n)], 2, 1, 3, 1, 3, 1, n)
+        for name in ("circ4", "gal4", "con6", "circ8", "nl10", 126, 128, 130):
+            # the generated ones sit at the boundary of the plan's storage type (team ids -n..n: int8 up to 127 teams)
+            ti = TInstance.from_resource(name) if isinstance(name, str) else _gen_ttp(name)
             gs = GamePlanSpace(ti)
-            for _ in range(10 if tier == "quick" else 100):
+            for _ in range((10 if tier == "quick" else 100) if isinstance(name, str) else 2):
                 p = gs.create()
                 n = ti.n_cities
                 for d in range(p.shape[0]):
@@ -118,9 +131,9 @@ def _harness(tier, seed):
                 except Exception as ex:
                     viol.append(("game-plan/raises", {"instance": name, "plan": np.array(p).tolist()}, repr(ex)))
         # ---- orderings
-        for _ in range(10 if tier == "quick" else 100):
-            k = rng.randint(3, 12)
-            data = rng.sample(range(-50, 50), k)
+        osizes = [rng.randint(3, 12) for _ in range(10 if tier == "quick" else 100)] + [127, 128, 129, 255, 256, 257]
+        for k in osizes:
+            data = rng.sample(range(-50 * k, 50 * k), k)
             oi = OInstance.from_sequence_and_distance(data, lambda a, b: abs(a - b), 2, 10, ("tag", "other"),
                                                       lambda o: (f"t{o}", f"u{o * o}"))
             os_ = OrderingSpace(oi)
@@ -141,6 +154,12 @@ def _harness(tier, seed):
         for tab in range(9 if tier == "quick" else 63):
             records = []
             insts = [Instance.from_resource(nm) for nm in rng.sample(["a01", "a04", "a10", "beng01", "beng05"], 2)]
+            if tab % 2 == 0:
+                # a generated instance whose bin area is odd and above 2^53 (bin sides up to 10^12 are admissible): its
+                # area-based objective values and bounds are integers no double represents.  (Square items and a low bin:
+                # the instance constructor cuts items into squares and scans q up to half the smaller bin side.)
+                bw, bh = 999_999_999_001 + 2 * rng.randint(0, 400), 10_007
+                insts.append(Instance(f"huge{tab}", bw, bh, [[10_000, 10_000, 2], [5_000, 5_000, 2], [4, 4, 1]]))
             algos = rng.sample(["rls", "ea_1p1", "rs", "hc2"], rng.randint(1, 3))
             # the table shapes are enumerated, not drawn: every run sees each combination of the optional columns
             goal_mode = ("none", "all", "mixed")[tab % 3]
@@ -227,7 +246,8 @@ def _harness(tier, seed):
     viol = [v for v in viol if not (v[0] in seen or seen.add(v[0]))]
     return {"name": "text_roundtrip", "evaluations": evals, "distinct_nontrivial": len(distinct),
             "rule": "generated instances (boundary sizes 1, 9/10, 99/100, 127/128, 32767, 10^6; multi-digit repetitions), packings "
-                    "from both decoders, random game plans of 5 instances, orderings, and heterogeneous result/statistics tables "
-                    "(1-3 algorithms, different objectives/encodings, with/without budget column, goal none/all/mixed) written "
+                    "from both decoders (also a bin side near 10^12), random game plans of 5 bundled and 3 generated instances (126-130 teams), "
+                    "orderings (also 127-257 objects), and heterogeneous result/statistics tables "
+                    "(1-3 algorithms, different objectives/encodings, budget and goal columns none/all/mixed, bounds above 2^53) written "
                     "to a scratch directory; distinct = distinct texts / table configurations",
             "samples": samples, "violations": viol, "exhaustive": False}
